@@ -31,6 +31,7 @@ namespace ys {
 MiniEngine list_engine();
 MiniEngine hash_engine();
 MiniEngine tw_engine(const std::string& prop);
+MiniEngine tw2_engine();
 
 static double now_s() {
     using namespace std::chrono;
@@ -906,6 +907,8 @@ static int cmd_replay(const std::string& path, bool verbose) {
         return mini_replay(hash_engine(), j, verbose);
     if (j.gets("engine", "") == "tw")
         return mini_replay(tw_engine(j.gets("prop", "C01")), j, verbose);
+    if (j.gets("engine", "") == "tw2")
+        return mini_replay(tw2_engine(), j, verbose);
     Plan plan = plan_from_json(j);
     std::string prop = plan.prop;
     std::string want;
@@ -1014,6 +1017,8 @@ int main(int argc, char** argv) {
                 rc = mini_run(list_engine(), tier, base, from, to, secs, g_outdir, g_sigfile, maxf);
             else if (prop == "hash")
                 rc = mini_run(hash_engine(), tier, base, from, to, secs, g_outdir, g_sigfile, maxf);
+            else if (prop == "tw2")
+                rc = mini_run(tw2_engine(), tier, base, from, to, secs, g_outdir, g_sigfile, maxf);
             else if (prop == "tw")
                 rc = mini_run(tw_engine(arg(argc, argv, "--focus", "C01")), tier, base, from, to, secs, g_outdir, g_sigfile, maxf);
             else
